@@ -100,3 +100,80 @@ func RunReadsLocale(ti *terminfo.Terminfo, locale string, reads [][]byte, deferP
 	take()
 	return got, nil
 }
+
+// SplitUnderBackpressure plays three reads through a real screen while the
+// application does not poll: r1 ends inside an escape sequence (the escape timer
+// is armed), r2 follows at once, completes it, produces more events than the
+// event queue holds (the main loop parks on the full queue for longer than the
+// timer) and itself ends inside another sequence, r3 completes that one and has
+// been read too before the application starts polling, 130 ms later. No escape
+// timeout lies between the arrival of any two reads. usable=false: the machine
+// was too slow for the three reads to arrive within 25 ms (nothing can be said).
+func SplitUnderBackpressure(ti *terminfo.Terminfo, r1, r2, r3 []byte, want int) (got []inref.Ev, usable bool, err error) {
+	os.Setenv("LC_ALL", "en_US.UTF-8")
+	cp := *ti
+	cp.PadChar = ""
+	tty := faketty.New(80, 24)
+	s, err := tcell.NewTerminfoScreenFromTtyTerminfo(tty, &cp)
+	if err != nil {
+		return nil, false, fmt.Errorf("harness: %v", err)
+	}
+	if err := s.Init(); err != nil {
+		return nil, false, fmt.Errorf("harness: %v", err)
+	}
+	defer s.Fini()
+	s.EnableMouse()
+	for s.HasPendingEvent() {
+		s.PollEvent()
+	}
+	readBegins := func() int {
+		n := 0
+		for _, l := range tty.Log() {
+			if l.Name == "ReadBegin" {
+				n++
+			}
+		}
+		return n
+	}
+	waitReads := func(n int, d time.Duration) bool {
+		deadline := time.Now().Add(d)
+		for time.Now().Before(deadline) {
+			if tty.QueuedInput() == 0 && readBegins() >= n {
+				return true
+			}
+			time.Sleep(50 * time.Microsecond)
+		}
+		return false
+	}
+	base := readBegins()
+	t0 := time.Now()
+	tty.Feed(r1)
+	if !waitReads(base+1, 25*time.Millisecond) {
+		return nil, false, nil
+	}
+	tty.Feed(r2)
+	tty.Feed(r3)
+	if !waitReads(base+3, 25*time.Millisecond) || time.Since(t0) > 25*time.Millisecond {
+		return nil, false, nil
+	}
+	// the application is busy for longer than the escape timeout
+	time.Sleep(130 * time.Millisecond)
+	take := func() {
+		for s.HasPendingEvent() {
+			ev := s.PollEvent()
+			switch ev.(type) {
+			case *tcell.EventResize, *tcell.EventError:
+			default:
+				got = append(got, inref.From(ev))
+			}
+		}
+	}
+	deadline := time.Now().Add(pbt.Scaled(2 * time.Second))
+	for len(got) < want && time.Now().Before(deadline) {
+		take()
+		time.Sleep(200 * time.Microsecond)
+	}
+	time.Sleep(70 * time.Millisecond) // whatever the escape timer still flushes
+	take()
+	return got, true, nil
+}
